@@ -245,7 +245,7 @@ catalog is stored directly, has no `Dests`/`Names`, and whose objects all have n
 Take ANY sequence of `add_bookmark(Bookmark::new(title, …, page), parent)` calls (children attached
 in any order, possibly to missing parents) with at least one reachable bookmark, such that the
 reachable bookmarks have pairwise distinct titles and target pages in the page tree.
-Then for all sufficient fuel `build_outline` succeeds and, after `catalog.set("Outlines", root)`,
+Then for all sufficient fuel (`outline_child` has no guard) `build_outline` succeeds and, after `catalog.set("Outlines", root)`,
 `get_toc` returns exactly the preorder of the bookmark forest: level, title, page number. -/
 theorem toc_readback_rep (trailer : Dict) (os : Objects) (cat pid : ObjId) (catd : Dict) (ks : List PT)
     (maxId : Nat) (s : BmState) (ts : List BT) (hrep : repL s.table s.roots ts = true)
@@ -262,9 +262,9 @@ theorem toc_readback_rep (trailer : Dict) (os : Objects) (cat pid : ObjId) (catd
     (htarget : ∀ e ∈ BT.preL 1 (ts), e.2.2 ∈ PT.leavesL ks)
     (hscalar : ∀ e ∈ BT.preL 1 (ts), ∀ c ∈ e.2.1, IsScalar c)
     (hdistinct : ((BT.preL 1 (ts)).map (fun e => e.2.1)).Nodup)
-    (fuelB fuelR : Nat) (hfB : BT.sizeL (ts) ≤ fuelB) (hfR : BT.sizeL (ts) ≤ fuelR) :
+    (fuelB : Nat) (hfB : BT.sizeL (ts) ≤ fuelB) :
     ∃ b, buildOutline fuelB (s) maxId = some (some b) ∧
-      getToc fuelR trailer (setOutlines (installObjs os b.objs) cat b.root) =
+      getToc trailer (setOutlines (installObjs os b.objs) cat b.root) =
         .ok ((BT.preL 1 (ts)).map
           (fun e => { level := e.1, title := e.2.1, page := pageIndex (PT.leavesL ks) e.2.2 + 1 })) 0 := by
   obtain ⟨b, hb, hbroot, _, hbrootd, hbemb⟩ := outline_links s ts maxId fuelB hrep hne hfB
@@ -310,8 +310,8 @@ theorem toc_readback_rep (trailer : Dict) (os : Objects) (cat pid : ObjId) (catd
     simp [dictAt, Objects.get, this, installObjs_get, hq]
   refine toc_readback trailer _ (catd.set CAT_OUTLINES (oref (maxId + 1, 0))) (ts) (maxId + 1)
     (PT.leavesL ks) ?_ ?_ ?_ ?_ (hdict _ _ hbrootd) ?_ hne hpi
-    (List.Nodup.sublist (leavesL_sublist ks) hnodup) htarget hscalar hdistinct fuelR hfR
-  · simp [catalogOf, hroot, getDictionary, getObject, Objects.get, deref,
+    (List.Nodup.sublist (leavesL_sublist ks) hnodup) htarget hscalar hdistinct
+  · simp [Q13.catalog, hroot, getDictionary, getObject, Objects.get, deref,
       derefAux_nonref _ _ (Obj.dict (catd.set CAT_OUTLINES (oref (maxId + 1, 0)))) (by intro a b e; cases e), Obj.asDict]
   · have e : RD_OUTLINES = CAT_OUTLINES := by decide
     rw [e, Dict.get_set_eq]; rfl
@@ -323,7 +323,7 @@ theorem toc_readback_rep (trailer : Dict) (os : Objects) (cat pid : ObjId) (catd
 directly stored catalog without `Dests`/`Names`, all object numbers ≤ `max_id`; ANY sequence of
 `add_bookmark(Bookmark::new(title, …, page), parent)` calls (children attached in any order, possibly
 to missing parents) with at least one reachable bookmark, reachable titles pairwise distinct, target
-pages in the page tree.  Then for all sufficient fuel `build_outline` succeeds and, after
+pages in the page tree.  Then for all sufficient fuel (`outline_child` has no guard) `build_outline` succeeds and, after
 `catalog.set("Outlines", root)`, `get_toc` returns exactly the preorder of the bookmark forest:
 level, title, page number. -/
 theorem toc_readback_api (trailer : Dict) (os : Objects) (cat pid : ObjId) (catd : Dict) (ks : List PT)
@@ -342,13 +342,13 @@ theorem toc_readback_api (trailer : Dict) (os : Objects) (cat pid : ObjId) (catd
     (htarget : ∀ e ∈ BT.preL 1 (forestOfOps ops), e.2.2 ∈ PT.leavesL ks)
     (hscalar : ∀ e ∈ BT.preL 1 (forestOfOps ops), ∀ c ∈ e.2.1, IsScalar c)
     (hdistinct : ((BT.preL 1 (forestOfOps ops)).map (fun e => e.2.1)).Nodup)
-    (fuelB fuelR : Nat) (hfB : BT.sizeL (forestOfOps ops) ≤ fuelB) (hfR : BT.sizeL (forestOfOps ops) ≤ fuelR) :
+    (fuelB : Nat) (hfB : BT.sizeL (forestOfOps ops) ≤ fuelB) :
     ∃ b, buildOutline fuelB (addAll BmState.empty ops) maxId = some (some b) ∧
-      getToc fuelR trailer (setOutlines (installObjs os b.objs) cat b.root) =
+      getToc trailer (setOutlines (installObjs os b.objs) cat b.root) =
         .ok ((BT.preL 1 (forestOfOps ops)).map
           (fun e => { level := e.1, title := e.2.1, page := pageIndex (PT.leavesL ks) e.2.2 + 1 })) 0 :=
   toc_readback_rep trailer os cat pid catd ks maxId _ _ (rep_of_ops ops hc) hroot hcatd hpages hkids hemb hnodup hdepth
-    hold hnd hnn hne htarget hscalar hdistinct fuelB fuelR hfB hfR
+    hold hnd hnn hne htarget hscalar hdistinct fuelB hfB
 
 /-! ## non-vacuity of `toc_readback_api` -/
 
@@ -373,14 +373,14 @@ theorem exOs_old : ∀ q x, exOs.get q = some x → q.1 ≤ 4 := by
 `add_bookmark` sequence `exOps` (with an orphan): the theorem then gives the four-entry table of
 contents A(1) > B(1), C(2) ; é😀(2). -/
 example : ∃ b, buildOutline 4 (addAll BmState.empty exOps) 4 = some (some b) ∧
-    getToc 4 exTrailer (setOutlines (installObjs exOs b.objs) (1, 0) b.root) =
+    getToc exTrailer (setOutlines (installObjs exOs b.objs) (1, 0) b.root) =
       .ok [⟨1, [65], 1⟩, ⟨2, [66], 1⟩, ⟨2, [67], 2⟩, ⟨1, [0xE9, 0x1F600], 2⟩] 0 := by
   have h := toc_readback_api exTrailer exOs (1, 0) (2, 0) exCat exKs 4 exOps rfl rfl rfl rfl
     (by simp only [exKs, EmbedsL, Embeds]; exact ⟨rfl, rfl, trivial⟩)
     (by decide) (by decide) exOs_old rfl rfl
     (by decide) (by decide) (by decide)
     (by decide)
-    (by decide) 4 4 (by decide) (by decide)
+    (by decide) 4 (by decide)
   exact h
 
 end Lopdf.C17
